@@ -103,8 +103,8 @@ func (i Int) T() string {
 	return i.Sym
 }
 
-func mkBool(c bool) Bool     { return Bool{IsC: true, C: c} }
-func symBool(s string) Bool  { return Bool{Sym: s} }
+func mkBool(c bool) Bool    { return Bool{IsC: true, C: c} }
+func symBool(s string) Bool { return Bool{Sym: s} }
 func (b Bool) T() string {
 	if b.IsC {
 		if b.C {
